@@ -2,34 +2,31 @@
 
 Schedule-level completeness is not decided; claimed are the structural clauses.
 
-Nothing here names a static function of iv_work.c.  The code is found by role:
-  * worker    = the root (installed handler / exported function) that reaches an indirect call through
-                iv_work_item.work and touches a work_pool_priv;
-  * owner     = the root that reaches a call through iv_work_item.completion and touches a work_pool_priv;
-  * local     = the root that reaches those calls without touching a pool (NULL pool);
-  * submit    = the exported functions from which the link into work_pool_priv.work_items is reachable;
-  * start     = the roots from which iv_thread_create is reachable and that touch a work_pool_priv.
-Every root is analysed with the internal helpers of the iv_work code inlined and normalised (h12.context_of: cached
-addresses / values substituted, emptiness snapshots and result flags partitioned away, open-coded list primitives and
+Nothing here names a static function, a private struct, a private member or a file-scope variable of iv_work.c.  The
+anchors are the installed headers (iv_work_item.work/.completion/.list, iv_work_pool.priv/.max_threads) and library API
+of other modules (iv_thread_create, iv_event_post, iv_task_register, the lock functions, the iv_list primitives).
+  * Code is found by role: worker = the root (installed handler / exported function) that reaches an indirect call through
+    iv_work_item.work and touches a pool record; owner = the root that reaches a call through iv_work_item.completion and
+    touches a pool record; local = the root that reaches those calls without a pool (NULL pool); submit = the exported
+    functions from which the link of the caller's item into the pool queue is reachable; start = the roots from which
+    iv_thread_create is reachable and that touch a pool record.
+  * Data is found by role (h12.schema): the pool record is what iv_work_pool.priv points to; its lock, queues, sequence
+    numbers, thread counter (counting up to the maximum or down from it), events, and the thread record's link, kick event
+    and kicked mark are identified by what the code does with them, and named by their member chain inside the object.
+Every root is analysed with the internal helpers of the iv_work code inlined -- also through function-pointer parameters
+and constant dispatch tables -- and normalised (h12.context_of: out-parameters, context structs, cached addresses / values,
+ternaries, constant branches, emptiness snapshots and result flags are eliminated, open-coded list primitives and
 container_of recognised); obligations about a source construct are evaluated in every context and grouped by source
 location.  The obligations themselves are formulated over paths (h12.worlds: may-analysis over small abstract worlds,
 with NULL-ness of locals) and over the definition-based typestate of an item (h12.Items), never over loop or branch shape.
 """
-from ..core import (names_of, same_value, AnalysisBroken, Inliner, canon, strip, last_member, must_pass, relpath, norm_cond, walk, forward)
-from ..analyses import (is_call, holding, path_to, describe, exits_of, callback_kind, loops, innermost_loop,
-                        locksets, held, force_edges, prune_infeasible, list_empty_test, must_pass_from_block,
-                        atoms_reading, lock_effect)
+from ..core import AnalysisBroken, canon, strip, last_member, must_pass, names_of, walk, forward
+from ..analyses import is_call, path_to, loops, innermost_loop, locksets, held, lock_effect
 from ..roles import by_loc
-from . import c01
 from . import h12 as h
 
-POOL = 'work_pool_priv.lock'
-PRIV = 'work_pool_priv'
-SEQ_HEAD, SEQ_TAIL = (PRIV, 'seq_head'), (PRIV, 'seq_tail')
-WORK_ITEMS, WORK_DONE, IDLE = (PRIV, 'work_items'), (PRIV, 'work_done'), (PRIV, 'idle_threads')
-STARTED = (PRIV, 'started_threads')
-LOCALQ = ('iv_work_thr_info', 'work_items')
-ITEM_LINK = ('iv_work_item', 'list')
+POOL = 'work_pool_priv.lock'          # (kept for importers; the rules use the inferred h.schema(prog).lock)
+ITEM_LINK = h.ITEM_LINK               # iv_work_item.list: installed header
 
 
 # -- kept for c13 (imports lm_arg, per_iter_must, POOL) ------------------------------------------------------------
@@ -54,48 +51,85 @@ def per_iter_must(f, site, pred, kill=None):
     return bool(ev_in.get((site['_b'], site['_i'])))
 
 
-# -- site predicates ---------------------------------------------------------------------------------------------
+# -- site predicates (over the inferred roles, h12.Schema) ----------------------------------------------------------
 
-def work_site(e):
-    return callback_kind(e) == ('callback', 'work')
-
-
-def completion_site(e):
-    return callback_kind(e) == ('callback', 'completion')
+work_site = h.work_site
+completion_site = h.completion_site
 
 
-def pool_add(e):
-    return is_call(e, h.ADD) and lm_arg(e, 0) == ITEM_LINK and lm_arg(e, 1) == WORK_ITEMS
+class Preds:
+    """event predicates of one program: every private record / field is the one h12.schema() inferred by role"""
 
+    def __init__(self, prog):
+        self.S = S = h.schema(prog)
+        self.prog = prog
+        self.up = S.direction == 'up'
 
-def local_add(e):
-    return is_call(e, h.ADD) and lm_arg(e, 0) == ITEM_LINK and lm_arg(e, 1) == LOCALQ
+    def need(self, *roles):
+        missing = [r for r in roles if getattr(self.S, r) is None]
+        if missing:
+            raise AnalysisBroken('role inference: not found: %s' % ', '.join(missing))
 
+    def pool_add(self, e):
+        return is_call(e, h.ADD) and h.arg_chain(e, 0) == ITEM_LINK and h.arg_chain(e, 1) == self.S.work_items and self.S.work_items is not None
 
-def done_add(e):
-    return is_call(e, h.ADD) and lm_arg(e, 1) == WORK_DONE
+    def local_add(self, e):
+        return is_call(e, h.ADD) and h.arg_chain(e, 0) == ITEM_LINK and h.arg_chain(e, 1) == self.S.localq and self.S.localq is not None
 
+    def done_add(self, e):
+        return is_call(e, h.ADD) and h.arg_chain(e, 1) == self.S.work_done and self.S.work_done is not None
 
-def pool_lock_op(e, which=None):
-    for (op, lid) in lock_effect(e):
-        if lid == POOL and (which is None or op == which):
-            return True
-    return False
-
-
-def kick_post(e):
-    return is_call(e, 'iv_event_post') and lm_arg(e, 0) == ('work_pool_thread', 'kick')
-
-
-def kicked_mark(e):
-    if e['ev'] != 'store' or last_member(e['lhs']) != ('work_pool_thread', 'kicked') or e.get('op') != '=':
+    def pool_lock_op(self, e, which=None):
+        for (op, lid) in lock_effect(e):
+            if lid == self.S.lock and (which is None or op == which):
+                return True
         return False
-    r = strip(e.get('rhs'))
-    return isinstance(r, dict) and r.get('k') == 'int' and r['v'] != 0
 
+    def post_of(self, e, key):
+        return key is not None and is_call(e, 'iv_event_post') and h.arg_chain(e, 0) == key
 
-def start_or_request(e):
-    return is_call(e, 'iv_thread_create') or (is_call(e, 'iv_event_post') and lm_arg(e, 0) == (PRIV, 'thread_needed'))
+    def kick_post(self, e):
+        return self.post_of(e, self.S.kick)
+
+    def ev_post(self, e):
+        return self.post_of(e, self.S.ev)
+
+    def kicked_mark(self, e):
+        return h.mark_effect(e, self.S.kicked) == 'set'
+
+    def create(self, e):
+        return e['ev'] == 'call' and is_call(e, 'iv_thread_create')
+
+    def start_or_request(self, e):
+        return self.create(e) or self.post_of(e, self.S.needed)
+
+    def task_reg(self, e):
+        return self.S.task is not None and is_call(e, 'iv_task_register') and h.arg_chain(e, 0) == self.S.task
+
+    # -- the thread counter, in either direction -----------------------------------------------------------------------
+    def counted(self, e):
+        """+1: the event counts one more thread, -1: takes one back (x++ / x-- of an up-counter, x-- / x++ of a counter of free slots)"""
+        sg = h.step_of(e, self.S.counter)
+        if sg is None:
+            return None
+        return sg if self.up else -sg
+
+    def room(self, at):
+        """'room' / 'full' when the atom decides whether one more thread may be started: started < max (strictly; up-counter) or
+        free > 0 (counter of free slots; `free != 0` only for an unsigned counter)"""
+        if self.up:
+            c = h.compare_keys(at, self.S.counter, self.S.maxkeys)
+            if c == '<':
+                return 'room'
+            return 'full' if c in ('>=', '>', '==') else None
+        c = h.compare_zero(at, self.S.counter)
+        if c == '>' or (c == '!=' and h.is_unsigned(at[3])):
+            return 'room'
+        return 'full' if c in ('==', '<=', '<') else None
+
+    def bound_written(self, e):
+        """a store that changes what a test of the thread count has established (counter set otherwise than by a step; the maximum)"""
+        return e['ev'] == 'store' and (h.writes_key(e, self.S.counter) or any(h.writes_key(e, m) for m in self.S.maxkeys))
 
 
 def pos(e):
@@ -112,7 +146,8 @@ def origin(e, root):
 
 
 def pool_contexts(prog, pred, pool=True):
-    return [c for c in h.contexts(prog, pred) if h.touches(c[1], PRIV) == pool]
+    S = h.schema(prog)
+    return [c for c in h.contexts(prog, pred) if h.touches(c[1], S.priv) == pool]
 
 
 def run(ctx):
@@ -150,69 +185,73 @@ def _create_failed(at, resvars):
     return (op in ('<', '!=') and rc == '0') or (op == '==' and rc.startswith('-')) or (op == '<=' and rc.startswith('-'))
 
 
-def is_decr(e, key):
-    if e['ev'] != 'store' or last_member(e['lhs']) != key:
-        return False
-    return e['op'] == '--' or (e['op'] == '-=' and h.is_int(e.get('rhs'), 1))
-
-
 def thread_bound(ctx):
     prog = ctx.prog
-    cs = pool_contexts(prog, lambda e: is_call(e, 'iv_thread_create'))
+    P = Preds(prog)
+    P.need('lock')
+    cs = pool_contexts(prog, P.create)
     if len(cs) < 2:
         raise AnalysisBroken('thread start contexts: %d found (roots that reach iv_thread_create and touch a pool), >= 2 confirmed' % len(cs))
+    what = 'started < maximum' if P.up else 'free thread slots > 0'
     for root, g, sites in cs:
         ls = locksets(g)
-        # world (below, creates, increments): `below` = an edge started_threads < max_threads was taken in the current
-        # pool-lock region; creates / increments of the counter since that edge.  The room found by one test is good for one thread,
+        # world (below, creates, counted): `below` = an edge that proves room for one more thread was taken in the current
+        # pool-lock region; creates / threads counted since that edge.  The room found by one test is good for one thread,
         # counted before or after it is created.
         def step(e, w):
             below, nc, ni = w
-            if pool_lock_op(e):
+            if P.pool_lock_op(e):
                 return [(False, 0, 0)]
-            if is_call(e, 'iv_thread_create'):
+            if P.create(e):
                 return [(below, min(nc + 1, 2), ni)]
-            if h.is_incr(e, STARTED):
+            c = P.counted(e)
+            if c == 1:
                 return [(below, nc, min(ni + 1, 2))]
-            if h.writes(e, STARTED) or (e['ev'] == 'store' and any(k[1] == 'max_threads' for k in h.lvalue_steps(e['lhs']))):
-                return [(False, nc, ni)] if not (is_decr(e, STARTED) and ni > 0) else [(below, nc, ni - 1)]
+            if c == -1 and ni > 0:
+                return [(below, nc, ni - 1)]
+            if P.bound_written(e):
+                return [(False, nc, ni)]
             return [w]
         def edge(blk, si, w):
             for at in h.atoms_on(blk, si):
-                if h.compare_fields(at, STARTED, 'max_threads') == '<':
-                    return (True, 0, 0)
+                r = P.room(at)
+                if r == 'room':
+                    w = (True, 0, 0)
+                elif r == 'full':
+                    if w == (True, 0, 0):
+                        return None           # the same region has just established the opposite, nothing changed since
+                    w = (False, w[1], w[2])
             return w
         W = h.worlds(g, (False, 0, 0), step, edge)
         for loc, evs in sorted(by_loc(sites).items()):
             below = all(all(w[0] and w[1] == 0 and w[2] <= 1 for w in W.get(pos(e), ())) for e in evs)
-            locked = all(POOL in held(ls.get(pos(e))) for e in evs)
-            ctx.ob('R-C12f', '%s:start-below-maximum' % root.name, below and locked, loc=loc,
-                   detail='iv_thread_create is reached only over an edge started_threads < max_threads taken in the current pool-lock '
+            locked = all(P.S.lock in held(ls.get(pos(e))) for e in evs)
+            ctx.ob('R-C12f', '%s:start-below-maximum' % root.name, below and locked and P.S.counter is not None, loc=loc,
+                   detail='iv_thread_create is reached only over an edge `%s` taken in the current pool-lock '
                           'region, and that test admits one thread (count and test cannot be separated)%s%s'
-                          % ('' if below else '; NOT below the maximum on every path', '' if locked else '; pool lock NOT held'),
+                          % (what, '' if below else '; NOT below the maximum on every path', '' if locked else '; pool lock NOT held'),
                    path=None if below else path_to(g, evs[0]), fn=root.q)
-        # the started thread is counted before the region ends: world (creates not known to have failed, net increments)
+        # the started thread is counted before the region ends: world (creates not known to have failed, net count)
         resvars = {canon(e['lhs']) for e in g.events() if e['ev'] == 'store' and 'rhs' in e and h.varname(e['lhs'])
                    and any(x.get('k') == 'call' and x.get('callee') == 'iv_thread_create' for x in walk(e['rhs']))}
         def step2(e, w):
             c, n = w
-            if pool_lock_op(e):
+            if P.pool_lock_op(e):
                 return [(0, 0)]
-            if is_call(e, 'iv_thread_create'):
+            if P.create(e):
                 return [(_cap(c + 1), n)]
-            if h.is_incr(e, STARTED):
-                return [(c, _cap(n + 1))]
-            if is_decr(e, STARTED):
-                return [(c, _cap(n - 1))]
+            k = P.counted(e)
+            if k:
+                return [(c, _cap(n + k))]
             return [w]
         def edge2(blk, si, w):
             if w[0] > 0 and any(_create_failed(at, resvars) for at in h.atoms_on(blk, si)):
                 return (w[0] - 1, w[1])
             return w
         W2 = h.worlds(g, (0, 0), step2, edge2)
-        bad = [e for e in g.events() if pool_lock_op(e, 'unlock') and any(c != n for (c, n) in W2.get(pos(e), ()))]
-        ctx.ob('R-C12f', '%s:started-thread-is-counted' % root.name, not bad, loc=sites[0]['loc'],
-               detail='whenever the pool lock is released, started_threads has been incremented once per successful iv_thread_create of the '
+        bad = [e for e in g.events() if P.pool_lock_op(e, 'unlock') and any(c != n for (c, n) in W2.get(pos(e), ()))]
+        ctx.ob('R-C12f', '%s:started-thread-is-counted' % root.name, not bad and P.S.counter is not None, loc=sites[0]['loc'],
+               detail='whenever the pool lock is released, the thread counter has been stepped once per successful iv_thread_create of the '
                       'region (an uncounted thread lets the next submitter exceed max_threads)', fn=root.q)
 
 
@@ -221,20 +260,26 @@ def thread_bound(ctx):
 # ------------------------------------------------------------------------------------------------------------------
 
 def callbacks(ctx):
+    """Per calling context (root with helpers inlined) and kind of callback: no lock is held at any of the call sites
+    of that kind.  The four contexts that must exist are named by role, not by how many source lines hold a call:
+    work / completion, each with and without a pool (two loops merged into one helper still give four contexts)."""
     prog = ctx.prog
-    sites = {}
+    S = h.schema(prog)
+    seen = set()
     for kind, pred in (('work', work_site), ('completion', completion_site)):
         for root, g, ss in h.contexts(prog, pred):
             ls = locksets(g)
-            for cs in ss:
-                sites.setdefault((kind, cs['loc'], origin(cs, root)), []).append((root, held(ls.get(pos(cs)))))
-    for (kind, loc, fn), lst in sorted(sites.items()):
-        bad = sorted({'%s in %s' % (l, r.name) for r, H in lst for l in H})
-        ctx.ob('R-C12a', '%s:%s' % (fn, kind), not bad, loc=loc,
-               detail='locks held at the call, over all calling contexts (%s): %s' % (', '.join(sorted({r.name for r, _ in lst})), bad or 'none'),
-               fn=lst[0][0].q)
-    if len(sites) < 4:
-        raise AnalysisBroken('work/completion call sites: %d found, 4 confirmed' % len(sites))
+            seen.add((kind, h.touches(g, S.priv)))
+            for loc, css in sorted(by_loc(ss).items()):
+                bad = sorted({l for cs in css for l in held(ls.get(pos(cs)))})
+                ctx.ob('R-C12a', '%s:%s' % (root.name, kind), not bad, loc=loc,
+                       detail='locks held at the call of the %s function (written in %s) in the calling context %s: %s'
+                              % (kind, ', '.join(sorted({origin(cs, root) for cs in css})), root.name, bad or 'none'),
+                       path=path_to(g, css[0]) if bad else None, fn=root.q)
+    missing = [(k, p) for k in ('work', 'completion') for p in (True, False) if (k, p) not in seen]
+    if missing:
+        raise AnalysisBroken('work/completion call contexts not found: %s'
+                             % ', '.join('%s %s a pool' % (k, 'with' if p else 'without') for k, p in missing))
 
 
 # ------------------------------------------------------------------------------------------------------------------
@@ -243,39 +288,43 @@ def callbacks(ctx):
 
 def queues(ctx):
     prog = ctx.prog
+    P = Preds(prog)
+    S = P.S
+    P.need('lock', 'work_items')
     # ---- submit: every path queues the item exactly once; counter and link move together -------------------
-    subs = [c for c in h.contexts(prog, pool_add) if not c[0].static]
+    subs = [c for c in h.contexts(prog, P.pool_add) if not c[0].static]
     if not subs:
-        raise AnalysisBroken('submit: no exported function reaches the link into work_pool_priv.work_items')
+        raise AnalysisBroken('submit: no exported function reaches the link into the queue of a pool')
     for root, g, adds in subs:
         ls = locksets(g)
         def step(e, w):
-            if h.is_incr(e, SEQ_TAIL):
+            if h.step_of(e, S.seq_tail) == 1:
                 return [(_cap(w[0] + 1), w[1], w[2])]
-            if pool_add(e):
+            if P.pool_add(e):
                 return [(w[0], _cap(w[1] + 1), w[2])]
-            if local_add(e):
+            if P.local_add(e):
                 return [(w[0], w[1], _cap(w[2] + 1))]
             return [w]
         W = h.worlds(g, (0, 0, 0), step)
         ex = h.at_exit(g, W)
         ok = bool(ex) and all(w in ((1, 1, 0), (0, 0, 1)) for w in ex)
         ctx.ob('R-C12b', '%s:queues-exactly-once' % root.name, ok, loc=root.loc,
-               detail='every return has linked the item exactly once: into the pool queue together with one seq_tail increment, '
-                      'or into the local queue; (seq_tail++, pool links, local links) at exit: %s' % sorted(ex), fn=root.q)
-        incs = [e for e in g.events() if h.is_incr(e, SEQ_TAIL)]
-        locked = all(POOL in held(ls.get(pos(e))) for e in incs + adds)
-        apart = [e for e in g.events() if pool_lock_op(e, 'unlock') and any(w[0] != w[1] for w in W.get(pos(e), ()))]
-        ctx.ob('R-C12b', '%s:seq_tail-with-link' % root.name, bool(incs) and locked and not apart, loc=(incs or adds)[0]['loc'],
-               detail='seq_tail++ and the link into work_items happen under the pool lock, and whenever the lock is released '
-                      'the number of increments equals the number of links', fn=root.q)
+               detail='every return has linked the item exactly once: into the pool queue together with one step of the tail sequence number, '
+                      'or into the local queue; (tail steps, pool links, local links) at exit: %s' % sorted(ex), fn=root.q)
+        incs = [e for e in g.events() if h.step_of(e, S.seq_tail) == 1]
+        other = [e for e in g.events() if h.writes_key(e, S.seq_tail) and h.step_of(e, S.seq_tail) != 1]
+        locked = all(S.lock in held(ls.get(pos(e))) for e in incs + adds)
+        apart = [e for e in g.events() if P.pool_lock_op(e, 'unlock') and any(w[0] != w[1] for w in W.get(pos(e), ()))]
+        ctx.ob('R-C12b', '%s:seq_tail-with-link' % root.name, bool(incs) and locked and not apart and not other, loc=(incs or adds)[0]['loc'],
+               detail='the step of the tail sequence number and the link into the pool queue happen under the pool lock, and whenever the lock '
+                      'is released the number of steps equals the number of links', fn=root.q)
     # ---- worker -------------------------------------------------------------------------------------------------
     wk = pool_contexts(prog, work_site)
     if not wk:
         raise AnalysisBroken('worker: no root calls a work function and touches a pool')
     for root, g, sites in wk:
         ls = locksets(g)
-        it = h.Items(g, lock=POOL)
+        it = h.Items(g, lock=S.lock)
         for loc, css in sorted(by_loc(sites).items()):
             objs = [o for cs in css for o in it.callee_objects(cs)]
             oku = bool(objs) and all(o is not None and o[1] == 'unlinked' and o[3] for o in objs)
@@ -283,38 +332,39 @@ def queues(ctx):
                    detail='between the definition of the item and the call of its work function the item was unlinked, under the pool '
                           'lock, exactly once (typestate of the item at the call: %s)' % sorted({o[1] if o else 'unknown item' for o in objs}),
                    path=None if oku else path_to(g, css[0]), fn=root.q)
-            okh = bool(objs) and all(o is not None and o[2] == ('head', WORK_ITEMS) for o in objs)
+            okh = bool(objs) and all(o is not None and o[2] == ('head', S.work_items) for o in objs)
             ctx.ob('R-C12b', 'worker:takes-queue-head', okh, loc=loc,
-                   detail='the item run is the first element of pool->work_items (FIFO); taken from: %s' % sorted({str(o[2]) if o else '?' for o in objs}),
+                   detail='the item run is the first element of the pool queue (FIFO); taken from: %s' % sorted({str(o[2]) if o else '?' for o in objs}),
                    fn=root.q)
-        # seq_head moves with the unlink: balanced whenever the lock is released
-        incs = [e for e in g.events() if h.is_incr(e, SEQ_HEAD)]
+        # the head sequence number moves with the unlink: balanced whenever the lock is released
+        incs = [e for e in g.events() if h.step_of(e, S.seq_head) == 1]
+        other = [e for e in g.events() if h.writes_key(e, S.seq_head) and h.step_of(e, S.seq_head) != 1]
         takes = set()
         for e in g.events():
             if is_call(e, h.DEL) and e.get('args'):
                 srcs = [o[2] if o is not None else h._src_of(e['args'][0]) for o in it.arg_objects(e)]
-                if any(src is not None and src[1] == WORK_ITEMS for src in srcs):
+                if any(src is not None and src[1] == S.work_items for src in srcs):
                     takes.add(id(e))
         def step(e, d):
-            if h.is_incr(e, SEQ_HEAD):
+            if h.step_of(e, S.seq_head) == 1:
                 return [_cap(d + 1)]
             if id(e) in takes:
                 return [_cap(d - 1)]
             return [d]
         W = h.worlds(g, 0, step)
-        apart = [e for e in g.events() if pool_lock_op(e, 'unlock') and any(d != 0 for d in W.get(pos(e), ()))]
+        apart = [e for e in g.events() if P.pool_lock_op(e, 'unlock') and any(d != 0 for d in W.get(pos(e), ()))]
         exbad = any(d != 0 for d in h.at_exit(g, W))
-        locked = all(POOL in held(ls.get(pos(e))) for e in incs) and all(POOL in held(ls.get(pos(e))) for e in g.events() if id(e) in takes)
-        ok = bool(incs) and bool(takes) and locked and not apart and not exbad
+        locked = all(S.lock in held(ls.get(pos(e))) for e in incs) and all(S.lock in held(ls.get(pos(e))) for e in g.events() if id(e) in takes)
+        ok = bool(incs) and bool(takes) and locked and not apart and not exbad and not other
         ctx.ob('R-C12b', 'worker:seq_head-with-unlink', ok, loc=(apart[0]['loc'] if apart else sites[0]['loc']),
-               detail='seq_head++ and the unlink of a queued item happen under the pool lock, and whenever the lock is released (before '
-                      'the work function) the number of increments equals the number of items taken', fn=root.q)
-        done = [e for e in g.events() if done_add(e)]
+               detail='the step of the head sequence number and the unlink of a queued item happen under the pool lock, and whenever the lock '
+                      'is released (before the work function) the number of steps equals the number of items taken', fn=root.q)
+        done = [e for e in g.events() if P.done_add(e)]
         if not done:
-            raise AnalysisBroken('worker: add to work_done not found')
+            raise AnalysisBroken('worker: add to the done queue not found')
         for loc, ds in sorted(by_loc(done).items()):
             objs = [o for d in ds for o in it.arg_objects(d)]
-            ok = bool(objs) and all(o is not None and o[1] == 'worked' for o in objs) and all(POOL in held(ls.get(pos(d))) for d in ds)
+            ok = bool(objs) and all(o is not None and o[1] == 'worked' for o in objs) and all(S.lock in held(ls.get(pos(d))) for d in ds)
             ctx.ob('R-C12b', 'worker:done-after-work', ok, loc=loc,
                    detail='the item is queued as done, under the lock, only after its own work function returned '
                           '(typestate of the item at the add: %s)' % sorted({o[1] if o else 'unknown item' for o in objs}), fn=root.q)
@@ -331,8 +381,8 @@ def queues(ctx):
             ctx.ob('R-C12b', 'owner:completion-after-unlink', ok, loc=loc,
                    detail='the item leaves the owner\'s batch before its completion runs, once (it may be resubmitted or freed there); '
                           'typestate at the call: %s' % sorted({o[1] if o else 'unknown item' for o in objs}), fn=root.q)
-        steal = [e for e in g.events() if is_call(e, h.DETACH) and lm_arg(e, 0) == WORK_DONE]
-        ok = bool(steal) and all(POOL in held(ls.get(pos(e))) for e in steal)
+        steal = [e for e in g.events() if is_call(e, h.DETACH) and h.arg_chain(e, 0) == S.work_done and S.work_done is not None]
+        ok = bool(steal) and all(S.lock in held(ls.get(pos(e))) for e in steal)
         for e in steal:
             if e['callee'] != '__iv_list_steal_elements':
                 # splice variants link into the target: it must be an initialised list head
@@ -366,14 +416,14 @@ def kick_on_empty(g, qkey, is_add, is_kick, lock):
         if is_add(e):
             return [('N', owed or (K == 'E' and not kicked), kicked)]
         if e['ev'] == 'call' and e.get('callee') in h.LIST_PRIMS:
-            keys = [lm_arg(e, i) for i in range(len(e.get('args', [])))]
+            keys = [h.arg_chain(e, i) for i in range(len(e.get('args', [])))]
             if qkey in keys or (e['callee'] in h.DEL and keys[:1] in ([ITEM_LINK], [None])):
                 return [('?', owed, kicked)]
         return [w]
     def edge(blk, si, w):
         K, owed, kicked = w
         for at in h.atoms_on(blk, si):
-            t = list_empty_test(at, member_key=qkey)
+            t = h.empty_test(at, qkey)
             if t is not None:
                 k2 = 'E' if t == 'empty' else 'N'
                 if K != '?' and K != k2:
@@ -397,17 +447,18 @@ def kick_on_empty(g, qkey, is_add, is_kick, lock):
 
 def done_kick(ctx):
     prog = ctx.prog
-    wk = pool_contexts(prog, done_add)
+    P = Preds(prog)
+    P.need('lock', 'work_done', 'ev')
+    wk = pool_contexts(prog, P.done_add)
     if not wk:
-        raise AnalysisBroken('done queue: no root links items into work_pool_priv.work_done')
-    ev_post = lambda e: is_call(e, 'iv_event_post') and lm_arg(e, 0) == (PRIV, 'ev')
+        raise AnalysisBroken('done queue: no root links items into the done queue of a pool')
     for root, g, adds in wk:
-        untested, _, owing = kick_on_empty(g, WORK_DONE, done_add, ev_post, POOL)
+        untested, _, owing = kick_on_empty(g, P.S.work_done, P.done_add, P.ev_post, P.S.lock)
         ctx.ob('R-C12c', '%s:test-then-add-one-region' % root.name, not untested, loc=(untested or adds)[0]['loc'],
-               detail='at the add to work_done its emptiness is known from a test made in the same pool-lock region with the queue '
+               detail='at the add to the done queue its emptiness is known from a test made in the same pool-lock region with the queue '
                       'untouched since (or the owner is posted unconditionally)', fn=root.q)
         ctx.ob('R-C12c', '%s:empty-implies-post' % root.name, not owing, loc=adds[0]['loc'],
-               detail='when work_done was empty at the add, the pool event is posted before the pool lock is released', fn=root.q)
+               detail='when the done queue was empty at the add, the event of the owner is posted before the pool lock is released', fn=root.q)
 
 
 # ------------------------------------------------------------------------------------------------------------------
@@ -429,38 +480,41 @@ def _bit(w, name):
 
 def submit(ctx):
     prog = ctx.prog
-    subs = [c for c in h.contexts(prog, pool_add) if not c[0].static]
+    P = Preds(prog)
+    S = P.S
+    P.need('lock', 'work_items', 'idle', 'kick', 'kicked', 'thr_link')
+    subs = [c for c in h.contexts(prog, P.pool_add) if not c[0].static]
     if not subs:
-        raise AnalysisBroken('submit: no exported function reaches the link into work_pool_priv.work_items')
+        raise AnalysisBroken('submit: no exported function reaches the link into the queue of a pool')
     under = {}
     for root, g, adds in subs:
         ls = locksets(g)
         alloc = {canon(e['lhs']) for e in g.events() if e['ev'] == 'store' and 'rhs' in e and h.varname(e['lhs'])
                  and any(x.get('k') == 'call' and x.get('callee') in ('malloc', 'calloc') for x in walk(e['rhs']))}
         def step(e, w):
-            if pool_lock_op(e):
+            if P.pool_lock_op(e):
                 return [ZERO]
-            if pool_add(e):
+            if P.pool_add(e):
                 return [_set(w, 'queued')]
-            if kicked_mark(e):
+            if P.kicked_mark(e):
                 return [_set(w, 'mark')]
-            if kick_post(e):
+            if P.kick_post(e):
                 return [_set(w, 'post')]
-            if start_or_request(e):
+            if P.start_or_request(e):
                 return [_set(w, 'start')]
             return [w]
         def edge(blk, si, w):
             for at in h.atoms_on(blk, si):
-                t = list_empty_test(at, member_key=IDLE)
+                t = h.empty_test(at, S.idle)
                 if t is not None:
                     a, b = ('em', 'ne') if t == 'empty' else ('ne', 'em')
                     if _bit(w, b):
                         return None
                     w = _set(w, a)
                     continue
-                c = h.compare_fields(at, STARTED, 'max_threads')
-                if c in ('<', '>=', '>', '=='):
-                    a, b = ('be', 'nb') if c == '<' else ('nb', 'be')
+                c = P.room(at)
+                if c is not None:
+                    a, b = ('be', 'nb') if c == 'room' else ('nb', 'be')
                     if _bit(w, b):
                         return None
                     w = _set(w, a)
@@ -470,45 +524,48 @@ def submit(ctx):
                     w = _set(w, 'oom')
             return w
         W = h.worlds(g, ZERO, step, edge)
-        ends = [e for e in g.events() if pool_lock_op(e, 'unlock')]
+        ends = [e for e in g.events() if P.pool_lock_op(e, 'unlock')]
         final = set()
         for e in ends:
             final |= {w for w in W.get(pos(e), ()) if _bit(w, 'queued') and not _bit(w, 'oom')}
         if not final:
             raise AnalysisBroken('%s: the pool-lock region that queues the item is never closed' % root.name)
         # the thread that is marked and the thread that is kicked are one element taken from the idle list
-        thr = h.Items(g, rec='work_pool_thread', link='list')
-        marks = [e for e in g.events() if kicked_mark(e)]
-        posts = [e for e in g.events() if kick_post(e)]
-        mo = [o for e in marks for o in thr.var_objects(e, h.varname(strip(e['lhs']).get('base')))]
+        thr = h.Items(g, rec=S.thr_link[-1][0], link=S.thr_link[-1][1])
+        marks = [e for e in g.events() if P.kicked_mark(e)]
+        posts = [e for e in g.events() if P.kick_post(e)]
+        mo = [o for e in marks for o in thr.var_objects(e, h.base_var(e['lhs']))]
         po = [o for e in posts for o in thr.var_objects(e, h.arg_base(e, 0))]
-        idle_elem = all(o is not None and o[2] is not None and o[2][1] == IDLE for o in mo + po)
+        idle_elem = all(o is not None and o[2] is not None and o[2][1] == S.idle for o in mo + po)
         same = all(any(m is not None and p is not None and m[0] & p[0] for m in mo) for p in po)
         kicked = all((_bit(w, 'mark') and _bit(w, 'post')) for w in final if _bit(w, 'ne'))
         ctx.ob('R-C12d', '%s:idle-worker-kicked' % root.name, kicked and idle_elem and same and any(_bit(w, 'ne') for w in final), loc=root.loc,
                detail='idle list non-empty: an element of the idle list is marked kicked and the kick event of that same worker is posted '
-                      'before the pool lock is released, on every path%s%s' % ('' if idle_elem else '; the worker is NOT taken from idle_threads',
+                      'before the pool lock is released, on every path%s%s' % ('' if idle_elem else '; the worker is NOT taken from the idle list',
                                                                                '' if same else '; mark and post concern different workers'), fn=root.q)
         started = all(_bit(w, 'start') for w in final if _bit(w, 'em') and _bit(w, 'be'))
         ctx.ob('R-C12d', '%s:no-idle-below-max-starts-or-requests' % root.name, started and any(_bit(w, 'em') and _bit(w, 'be') for w in final), loc=root.loc,
-               detail='no idle worker and started_threads below the maximum: a thread is started (owner) or requested (thread_needed event) '
+               detail='no idle worker and the thread count below the maximum: a thread is started (owner) or requested (event of the owner) '
                       'before the pool lock is released', fn=root.q)
         decided = all(_bit(w, 'ne') or (_bit(w, 'em') and (_bit(w, 'be') or _bit(w, 'nb'))) for w in final)
         ctx.ob('R-C12d', '%s:decides-in-queueing-region' % root.name, decided, loc=adds[0]['loc'],
                detail='in the pool-lock region that queues the item, every path tests the idle list and, when it is empty, the thread count '
                       '(a worker cannot go idle or time out between the queueing and the decision)', fn=root.q)
         for e in marks + posts:
-            k = ('post' if kick_post(e) else 'mark', e['loc'])
-            under[k] = under.get(k, True) and POOL in held(ls.get(pos(e)))
+            k = ('post' if P.kick_post(e) else 'mark', e['loc'])
+            under[k] = under.get(k, True) and S.lock in held(ls.get(pos(e)))
     for (what, loc), ok in sorted(under.items()):
         ctx.ob('R-C12d', 'submit:kick-under-lock:%s' % what, ok, loc=loc,
                detail='inside the pool-lock region that queued the item (a worker cannot go idle-timeout in between)')
 
 
 def leftover(ctx):
-    """A worker returns to its event loop only when no work is queued (seq_head == seq_tail established in its last
+    """A worker returns to its event loop only when no work is queued (head == tail sequence number established in its last
     pool-lock region, counters untouched since) or after posting its own kick."""
     prog = ctx.prog
+    P = Preds(prog)
+    S = P.S
+    P.need('lock', 'kick', 'work_items')
     wk = pool_contexts(prog, work_site)
     if not wk:
         raise AnalysisBroken('worker: no root calls a work function and touches a pool')
@@ -524,21 +581,21 @@ def leftover(ctx):
                     own.add(h.varname(e['lhs']))
                     grown = True
         def own_kick(e):
-            return kick_post(e) and h.arg_base(e, 0) in own
+            return P.kick_post(e) and h.arg_base(e, 0) in own
         def step(e, w):
             posted, equal = w
             if own_kick(e):
                 return [(True, equal)]
-            if pool_lock_op(e, 'lock') or h.writes(e, SEQ_HEAD) or h.writes(e, SEQ_TAIL) or pool_add(e):
+            if P.pool_lock_op(e, 'lock') or h.writes_key(e, S.seq_head) or h.writes_key(e, S.seq_tail) or P.pool_add(e):
                 return [(posted, False)]
             return [w]
         def edge(blk, si, w):
             posted, equal = w
             for at in h.atoms_on(blk, si):
-                rel = h.seq_relation(at, SEQ_HEAD, SEQ_TAIL)
+                rel = h.seq_order(at, S.seq_head, S.seq_tail)
                 if rel is None:
-                    # the queue itself found empty is the same witness (seq_head == seq_tail iff work_items is empty)
-                    t = list_empty_test(at, member_key=WORK_ITEMS)
+                    # the queue itself found empty is the same witness (head == tail iff the queue is empty)
+                    t = h.empty_test(at, S.work_items)
                     rel = {'empty': 'eq', 'nonempty': 'ne', None: None}[t]
                 if rel == 'eq':
                     equal = True
@@ -551,8 +608,8 @@ def leftover(ctx):
         ex = h.at_exit(g, W)
         ok = bool(ex) and all(p or q for (p, q) in ex)
         ctx.ob('R-C12d', 'worker:leftover-work-reposts-kick', ok, loc=sites[0]['loc'],
-               detail='every return of the worker either established seq_head == seq_tail in its last pool-lock region or posted the '
-                      'worker\'s own kick so that it is called again (no idle thread / no new thread case)', fn=root.q)
+               detail='every return of the worker either established head == tail sequence number (or the queue empty) in its last pool-lock '
+                      'region or posted the worker\'s own kick so that it is called again (no idle thread / no new thread case)', fn=root.q)
 
 
 # ------------------------------------------------------------------------------------------------------------------
@@ -561,6 +618,7 @@ def leftover(ctx):
 
 def local(ctx):
     prog = ctx.prog
+    P = Preds(prog)
     lc = pool_contexts(prog, work_site, pool=False)
     if not lc:
         raise AnalysisBroken('local handler: no root calls a work function without touching a pool')
@@ -581,14 +639,14 @@ def local(ctx):
             ctx.ob('R-C12e', 'local:work-then-completion', ok, loc=loc,
                    detail='the completion is called on an item whose own work function has returned, once (typestate: %s)'
                           % sorted({o[1] if o else 'unknown item' for o in objs}), fn=root.q)
-    subs = [c for c in h.contexts(prog, local_add) if not c[0].static]
+    P.need('localq', 'task')
+    subs = [c for c in h.contexts(prog, P.local_add) if not c[0].static]
     if not subs:
-        raise AnalysisBroken('local submit: no exported function reaches the link into iv_work_thr_info.work_items')
-    reg = lambda e: is_call(e, 'iv_task_register') and lm_arg(e, 0) == ('iv_work_thr_info', 'task')
+        raise AnalysisBroken('local submit: no exported function reaches the link into the queue of the NULL pool')
     for root, g, adds in subs:
-        if not any(reg(e) for e in g.events()):
+        if not any(P.task_reg(e) for e in g.events()):
             raise AnalysisBroken('local submit %s: registration of the local task not found' % root.name)
-        untested, offedge, owing = kick_on_empty(g, LOCALQ, local_add, reg, None)
+        untested, offedge, owing = kick_on_empty(g, P.S.localq, P.local_add, P.task_reg, None)
         ctx.ob('R-C12e', '%s:task-on-empty-to-nonempty' % root.name, not untested and not offedge and not owing, loc=adds[0]['loc'],
                detail='the local task is registered exactly when the local queue is known empty at the add%s%s%s'
                       % ('; emptiness NOT known at the add' if untested else '', '; registered off the empty edge' if offedge else '',
